@@ -1297,6 +1297,7 @@ class Results(object):
         items = [item for item in self.top_n if item[1] in otherdocs]
         self.docset = self.docs() & otherdocs
         self.top_n = items
+        self._total = len(self.docset)
 
     def upgrade(self, results, reverse=False):
         """Re-sorts the results so any hits that are also in 'results' appear
@@ -1343,6 +1344,7 @@ class Results(object):
 
         self.docset = docs | otherdocs
         self.top_n = arein + notin + other
+        self._total = len(self.docset)
 
 
 class Hit(object):
